@@ -45,6 +45,44 @@ pub mod channel {
         Disconnected,
     }
 
+    impl<T> SendError<T> {
+        pub fn into_inner(self) -> T {
+            self.0
+        }
+    }
+    impl<T> TrySendError<T> {
+        pub fn into_inner(self) -> T {
+            match self {
+                TrySendError::Full(v) | TrySendError::Disconnected(v) => v,
+            }
+        }
+        pub fn is_full(&self) -> bool {
+            matches!(self, TrySendError::Full(_))
+        }
+        pub fn is_disconnected(&self) -> bool {
+            matches!(self, TrySendError::Disconnected(_))
+        }
+    }
+    impl<T> From<SendError<T>> for TrySendError<T> {
+        fn from(e: SendError<T>) -> Self {
+            TrySendError::Disconnected(e.0)
+        }
+    }
+    #[derive(PartialEq, Eq, Clone, Copy, Debug)]
+    pub enum RecvTimeoutError {
+        Timeout,
+        Disconnected,
+    }
+    #[derive(PartialEq, Eq, Clone, Copy)]
+    pub enum SendTimeoutError<T> {
+        Timeout(T),
+        Disconnected(T),
+    }
+    impl<T> fmt::Debug for SendTimeoutError<T> {
+        fn fmt(&self, f: &mut fmt::Formatter<'_>) -> fmt::Result {
+            "SendTimeoutError(..)".fmt(f)
+        }
+    }
     impl<T> fmt::Debug for SendError<T> {
         fn fmt(&self, f: &mut fmt::Formatter<'_>) -> fmt::Result {
             "SendError(..)".fmt(f)
@@ -89,6 +127,11 @@ pub mod channel {
     }
     impl std::error::Error for TryRecvError {}
 
+    /// unbounded flavour (never full)
+    pub fn unbounded<T>() -> (Sender<T>, Receiver<T>) {
+        bounded(usize::MAX)
+    }
+
     pub fn bounded<T>(cap: usize) -> (Sender<T>, Receiver<T>) {
         assert!(cap >= 1, "shim-crossbeam: zero-capacity (rendezvous) channels are not modelled");
         let c = Arc::new(Chan {
@@ -115,6 +158,10 @@ pub mod channel {
                 g = self.c.not_full.wait(g).unwrap();
             }
         }
+        /// the schedule-controlled runtime has no clock: a timed send never times out
+        pub fn send_timeout(&self, msg: T, _d: std::time::Duration) -> Result<(), SendTimeoutError<T>> {
+            self.send(msg).map_err(|e| SendTimeoutError::Disconnected(e.0))
+        }
         pub fn try_send(&self, msg: T) -> Result<(), TrySendError<T>> {
             let mut g = self.c.m.lock().unwrap();
             if g.receivers == 0 {
@@ -140,7 +187,12 @@ pub mod channel {
             g.q.len() >= g.cap
         }
         pub fn capacity(&self) -> Option<usize> {
-            Some(self.c.m.lock().unwrap().cap)
+            let c = self.c.m.lock().unwrap().cap;
+            if c == usize::MAX {
+                None
+            } else {
+                Some(c)
+            }
         }
     }
     impl<T> Receiver<T> {
@@ -157,6 +209,16 @@ pub mod channel {
                 }
                 g = self.c.not_empty.wait(g).unwrap();
             }
+        }
+        /// the schedule-controlled runtime has no clock: a timed receive never times out
+        pub fn recv_timeout(&self, _d: std::time::Duration) -> Result<T, RecvTimeoutError> {
+            self.recv().map_err(|_| RecvTimeoutError::Disconnected)
+        }
+        pub fn iter(&self) -> impl Iterator<Item = T> + '_ {
+            std::iter::from_fn(move || self.recv().ok())
+        }
+        pub fn try_iter(&self) -> impl Iterator<Item = T> + '_ {
+            std::iter::from_fn(move || self.try_recv().ok())
         }
         pub fn try_recv(&self) -> Result<T, TryRecvError> {
             let mut g = self.c.m.lock().unwrap();
@@ -182,7 +244,12 @@ pub mod channel {
             g.q.len() >= g.cap
         }
         pub fn capacity(&self) -> Option<usize> {
-            Some(self.c.m.lock().unwrap().cap)
+            let c = self.c.m.lock().unwrap().cap;
+            if c == usize::MAX {
+                None
+            } else {
+                Some(c)
+            }
         }
     }
     impl<T> Clone for Sender<T> {
